@@ -189,7 +189,8 @@ Proof.
   intros Wa. destruct (wf_eq_parts a Wa) as (Ua & Ma & Oa). unfold opts_equal.
   rewrite !String.eqb_refl, !Z.eqb_refl, N.eqb_refl, !Nat.eqb_refl, time_equal_refl. cbn [andb].
   fold (meta_fwd (metadata a) (metadata a)). fold (meta_bwd (metadata a) (metadata a)).
-  rewrite meta_fwd_of_maps, meta_bwd_of_maps by auto. cbn [andb]. apply origins_of_perm, Permutation_refl.
+  rewrite meta_fwd_of_maps, meta_bwd_of_maps by auto. cbn [andb].
+  rewrite (origins_of_perm _ _ (Permutation_refl (origins a))). reflexivity.
 Qed.
 
 Lemma opts_same_equal_weak a b : wf_eq_opts a = true -> wf_eq_opts b = true ->
@@ -204,7 +205,8 @@ Proof.
   rewrite !String.eqb_refl, !Z.eqb_refl, N.eqb_refl, !Nat.eqb_refl, time_equal_refl. cbn [andb].
   fold (meta_fwd (metadata a) (metadata b)). fold (meta_bwd (metadata a) (metadata b)).
   rewrite meta_fwd_of_maps, meta_bwd_of_maps by auto. cbn [andb].
-  rewrite (Permutation_length E10), Nat.eqb_refl. cbn [andb]. now apply origins_of_perm.
+  rewrite (Permutation_length E10), Nat.eqb_refl. cbn [andb].
+  rewrite (origins_of_perm _ _ E10), (origins_of_perm _ _ (Permutation_sym E10)). reflexivity.
 Qed.
 
 Lemma opts_equal_sym_l a b : wf_eq_opts a = true -> wf_eq_opts b = true -> opts_equal a b = true -> opts_equal b a = true.
